@@ -174,4 +174,4 @@ func runC19Conc(c C19ConcCase) *vkit.Outcome {
 
 var propC19Conc = vkit.NewProp([]string{"C19"}, "c19esconcurrent", genC19Conc, runC19Conc)
 
-func TestVerifC19ElasticConcurrent(t *testing.T) { propC19Conc.Check(t) }
+func TestVerifC19ElasticConcurrent(t *testing.T) { propC19Conc.CrashFile = true; propC19Conc.Check(t) }
